@@ -238,6 +238,14 @@ def run(eng, run):
     check_inc(eng, run, summ)
     from sa.analyses.arms import check_dead_arms
     check_dead_arms(eng, run, "C06.arms", ("serializers", "protocol", "lowlevel._stream"), 10)
+    # after a parse error the consumer is reusable: the finished / dead parser never stays parked (typestate shared with C10.parser)
+    from rules.c10 import check_parser
+    check_parser(eng, run, rule="C06.gen", dead_only=True)
+    from sa.analyses.arms import check_handler_attrs
+    from sa.analyses.escape import AttrResolver
+    ar = AttrResolver(eng)
+    check_handler_attrs(eng, run, "C06.attr", ("serializers", "protocol", "lowlevel._stream"), 8,
+                        resolve=lambda fn, expr: ar.attr_names(fn.cls, fn, expr) if fn.cls is not None else None)
     run.tables["raise_table"] = RAISE_TABLE
 
 
@@ -276,8 +284,12 @@ MUTANTS = [
     Variant("bz2-wrong-expected-error", _BZ2, lambda fn: replace_expr(fn, "OSError", "ValueError"), "C06.esc",
             expect_fn="AbstractCompressorSerializer", why="bz2 raises OSError on invalid data, the handler now names ValueError"),
     Variant("json-recursion-unhandled", _JSON + ".incremental_deserialize",
-            lambda fn: [t.handlers.remove(h) for t in ast.walk(fn) if isinstance(t, ast.Try) for h in list(t.handlers) if h.type is not None and ast.unparse(h.type) == "RecursionError"],
+            lambda fn: [t.handlers.remove(h) for t in ast.walk(fn) if isinstance(t, ast.Try) for h in list(t.handlers) if h.type is not None and "RecursionError" in ast.unparse(h.type)],
             "C06.esc", why="regression of the F3 fix: deeply nested JSON kills the receive path"),
+    Variant("json-int-digits-valueerror-unhandled", _JSON + ".deserialize",
+            lambda fn: [setattr(h, "type", ast.parse("RecursionError", mode="eval").body) for t in ast.walk(fn) if isinstance(t, ast.Try) for h in t.handlers
+                        if h.type is not None and "RecursionError" in ast.unparse(h.type)],
+            "C06.esc", why="regression of the F7 fix: a 5000-digit number raises a plain ValueError that escapes"),
     Variant("base64-handler-narrowed", _B64, lambda fn: [setattr(h, "type", ast.parse("UnicodeError", mode="eval").body) for h in ast.walk(fn) if isinstance(h, ast.ExceptHandler)],
             "C06.esc", why="binascii.Error escapes"),
     Variant("filebased-eoferror-oneshot-swallowed", _FB + ".deserialize",
@@ -286,7 +298,28 @@ MUTANTS = [
 ]
 
 BENIGN = [
-    Variant("json-widen-handler", _JSON + ".deserialize", lambda fn: set_handler_type(fn, "RecursionError", "(RecursionError, MemoryError)"), why="wider handler"),
+    Variant("json-widen-handler", _JSON + ".deserialize", lambda fn: set_handler_type(fn, "(RecursionError, ValueError)", "(RecursionError, ValueError, MemoryError)"), why="wider handler"),
     Variant("line-rename-local", _LINE + ".deserialize", lambda fn: rename_local(fn, "msg", "message"), why="local renamed"),
     Variant("struct-handler-reordered-noop", _STRUCT, lambda fn: find_handler(fn, "self.__error_cls").body.insert(0, ast.parse("pass").body[0]), why="no-op statement in the handler"),
+]
+
+
+_CONS = "lowlevel._stream:StreamDataConsumer.next"
+
+
+def _reset_only_on_finish(fn):
+    delete_stmt(fn, stmt_is("self.__consumer = None"))
+    for t in ast.walk(fn):
+        if isinstance(t, ast.Try):
+            for h in t.handlers:
+                if h.type is not None and ast.unparse(h.type) in ("StopIteration", "Exception") and any("consumer.send" in ast.unparse(b) for b in t.body):
+                    h.body.insert(0, ast.parse("self.__consumer = None").body[0])
+
+
+MUTANTS += [
+    Variant("consumer-parse-error-leaves-dead-parser-parked", _CONS, _reset_only_on_finish, "C06.gen",
+            why="after a parse error raised by a resumed generator the next next() unpacks None: TypeError escapes (seed C06-1)"),
+    Variant("json-recursion-merged-into-decode-arm", _JSON + ".incremental_deserialize",
+            lambda fn: (set_handler_type(fn, "self.__decoder_error_cls", "(self.__decoder_error_cls, RecursionError)"), set_handler_type(fn, "(RecursionError, ValueError)", "ValueError")),
+            "C06.attr", why="debug mode reads exc.doc on a RecursionError: AttributeError escapes (seed C06-4)"),
 ]
